@@ -39,13 +39,14 @@ CLASSES = (["rtype-" + t for t in domains.RELEASE_TYPES] + ["ctype-" + t for t i
             "final-true", "final-without-label", "id-created", "depth-3", "all-variant-types", "layered-product-variant",
             "dashed-top-uid", "dashed-top-prefix-of-sibling", "paths-full", "paths-dropped", "no-variants", "many-variants"])
 CLASS_FLOORS = dict((c, 5) for c in CLASSES)
+CLASS_FLOORS["process-encoding-ansi_x3.4-1968"] = 1
 CLASS_FLOORS.update({"child-arch-strict-subset": 5, "vtype-addon": 5, "vtype-optional": 5, "vtype-variant": 5})
 
 
 def plan(tier):
     if tier == "thorough":
-        return {"shards": 16, "params": {"cases": 25000, "budget_s": 1500}, "timeout_s": 3000}
-    return {"shards": 4, "params": {"cases": 1000, "budget_s": 300}, "timeout_s": 900}
+        return {"shards": 16, "params": {"cases": 25000, "budget_s": 1500}, "timeout_s": 3000, "ascii_locale_shards": [5, 11]}
+    return {"shards": 4, "ascii_locale_shards": [3], "params": {"cases": 1000, "budget_s": 300}, "timeout_s": 900}
 
 
 def _pm():
